@@ -107,6 +107,16 @@ def generate(rng, tier):
         for ax in (-2, -1, 0, 1):
             yield {"shapes": sh, "ca": ca, "fam": "probe", "wseed": 1, "step2": None, "step1": {"op": "explode", "axis": ax}}
 
+    # 3-D cubes, every common axis, items that stop short of the common axis or drop axes in front of it (and their
+    # full-length and Ellipsis spellings): the common axis of the result moves down by the axes dropped before it
+    sh3 = [[2, 3, 4], [2, 3, 2], [2, 3, 3]]
+    for ca in (None, 0, 1, 2):
+        sh = sh3 if ca == 2 else ([[4, 3, 2], [2, 3, 2], [3, 3, 2]] if ca == 0 else ([[2, 4, 3], [2, 2, 3], [2, 3, 3]] if ca == 1 else [[2, 3, 4]] * 3))
+        for items in ([C.sl(), 1], [C.sl(0, 3), -1], [C.sl(), C.sl(), 1], [C.sl(), 1, 0], [C.sl(), 1, C.sl(), C.sl()],
+                      [C.sl(), 1, "..."], [C.sl(1, None), C.sl(), 1, C.sl()], [C.sl(), 0, 1], [C.sl(), C.sl(0, 1), 1]):
+            yield {"shapes": sh, "ca": ca, "fam": "probe", "wseed": 1, "step2": None,
+                   "step1": {"op": "getitem", "index": {"tuple": items}}}
+
 
 # ---------------------------------------------------------------- oracle helpers
 def expand(items, total):
